@@ -156,6 +156,17 @@ fn underscore_twin(n: &str) -> String {
     n.to_string()
 }
 
+/// `send` -> `tend`: the next letter of the alphabet in first position (a leading letter only).
+fn first_letter_twin(n: &str) -> String {
+    match n.as_bytes().first() {
+        Some(c) if c.is_ascii_lowercase() => {
+            let next = if *c == b'z' { b'a' } else { c + 1 };
+            format!("{}{}", next as char, &n[1..])
+        }
+        _ => n.to_string(),
+    }
+}
+
 /// Registry of names already used, so that (a) a part never defines two methods of the
 /// same name, (b) parts never collide on a wire name of one kind unless asked to, while
 /// (c) sharing a name between *different* kinds of different parts is frequent.
@@ -193,6 +204,9 @@ impl NameReg {
             } else if attempt < 3 && !self.all.is_empty() && t.chance(12) {
                 // a distinct name that differs from an earlier one only by an underscore (`setup` / `set_up`)
                 underscore_twin(&self.all[t.pick(self.all.len())])
+            } else if attempt < 3 && !self.all.is_empty() && t.chance(8) {
+                // ... or only in its first letter (`send` / `lend`)
+                first_letter_twin(&self.all[t.pick(self.all.len())])
             } else if s2 {
                 name_s2(t)
             } else {
